@@ -2,15 +2,16 @@
 """archive_mut.py <Cxx> <n> <detected-by text>  — copy a confirmed seeded change into /verif/seeded/<Cxx>-<n>/"""
 import sys, os, shutil, json, re
 P, N, det = sys.argv[1], sys.argv[2], sys.argv[3]
+M = sys.argv[4] if len(sys.argv) > 4 else N      # number under which it is archived (later waves)
 src = f"/tmp/mut_{P}/OUT/{N}"
-dst = f"/verif/seeded/{P}-{N}"
+dst = f"/verif/seeded/{P}-{M}"
 os.makedirs(dst, exist_ok=True)
 for f in ["patch.diff", "demo_test.go", "demo_path.txt", "README.md"]:
     if os.path.exists(os.path.join(src, f)):
         shutil.copyfile(os.path.join(src, f), os.path.join(dst, f))
 readme = open(os.path.join(src, "README.md")).read() if os.path.exists(os.path.join(src, "README.md")) else ""
 confirm = ""
-for log in ["/tmp/confirm1.log", "/tmp/confirm2.log", "/tmp/confirm3.log", "/tmp/confirm4.log", "/tmp/confirm5.log"]:
+for log in ["/tmp/confirm1.log", "/tmp/confirm2.log", "/tmp/confirm3.log", "/tmp/confirm4.log", "/tmp/confirm5.log", "/tmp/confirm6.log", "/tmp/confirm7.log"]:
     if os.path.exists(log):
         txt = open(log).read()
         m = re.search(r"\[%s/%s\].*?(?=\n\[|\Z)" % (P, N), txt, re.S)
@@ -18,7 +19,7 @@ for log in ["/tmp/confirm1.log", "/tmp/confirm2.log", "/tmp/confirm3.log", "/tmp
             confirm = m.group(0)
 first_par = " ".join(readme.strip().split("\n\n")[0:2]).replace("\n", " ")[:900]
 meta = dict(
-    property=P, seeded_change=f"{P}-{N}",
+    property=P, seeded_change=f"{P}-{M}",
     summary=first_par,
     needs_to_manifest="see README.md (section on what is needed to manifest)",
     confirmed_by_me=confirm.strip().split("\n"),
